@@ -36,6 +36,8 @@ type Ctx struct {
 	Assume []string
 	Undec  []string // rules that could not be applied (anchor changed shape): exit 2 unless a violation is reported anyway
 	seen   map[string]int
+
+	sharedReach map[string]bool // non-nil while the shared pool runs: only constructs in these functions are kept
 }
 
 func newCtx(prop, tier string, p *Prog) *Ctx {
@@ -45,6 +47,13 @@ func newCtx(prop, tier string, p *Prog) *Ctx {
 func (c *Ctx) add(rule, key, pos, verdict, detail string) {
 	full := c.Prop + "." + rule
 	k := full + "|" + key
+	if c.sharedReach != nil {
+		// pooled rule: keep the obligation only if its construct lies in a function this property's operations reach,
+		// and only once
+		if fn := c.P.funcOfKey(key); fn == "" || !c.sharedReach[fn] || c.seen[k] > 0 {
+			return
+		}
+	}
 	c.seen[k]++
 	if n := c.seen[k]; n > 1 {
 		key = fmt.Sprintf("%s#%d", key, n)
